@@ -1,6 +1,7 @@
 """C15 -- query rewriting never changes what a query means."""
 
 import ast
+import re
 
 from ..report import rule
 from .. import norm, cfg as cfgmod, guards
@@ -163,6 +164,12 @@ def c15_r3(ctx):
         facts = fa.at(node) or frozenset()
         return any(any(d in t for d in disc) for (_, t) in facts)
 
+    # locals by role: lists of sub-queries being rebuilt; sets collecting the field names of Every clauses
+    work_lists = set(nm for nm, vals in norm.assigned_names(nz.node).items() if any(v is not None and isinstance(v, (ast.List, ast.ListComp)) for v in vals))
+    every_sets = set(norm.receiver(c).id for c in norm.calls_in(nz.node) if norm.call_name(c) == "add" and isinstance(norm.receiver(c), ast.Name)
+                     and c.args and isinstance(c.args[0], ast.Attribute) and c.args[0].attr == "fieldname")
+    if not work_lists or not every_sets:
+        raise AnalysisError("CompoundQuery.normalize: work list / Every-field set not recognised")
     for n in fa.g.nodes:
         a = n.ast
         if n.kind == "return" and a.value is not None and norm.canon(a.value) in ("Every()",):
@@ -171,36 +178,47 @@ def c15_r3(ctx):
                    loc=ctx.nodeloc(nz, a))
         if n.kind == "stmt":
             for c in norm.calls_in(a):
-                if norm.call_name(c) == "pop" and norm.canon(norm.receiver(c)) == "subqueries" and \
+                if norm.call_name(c) == "pop" and isinstance(norm.receiver(c), ast.Name) and norm.receiver(c).id in work_lists and \
                         isinstance(a, ast.Expr):
-                    ctx.ob(nz, discriminated(n), "subqueries.pop(i)   [a clause whose field is covered by Every(field) is dropped]",
+                    ctx.ob(nz, discriminated(n), "a clause is popped and discarded   [a clause whose field is covered by Every(field) is dropped]",
                            detail="valid for Or, wrong for And: not conditioned on the operator", loc=ctx.nodeloc(nz, a))
         if n.kind == "stmt" and isinstance(a, ast.Continue):
             facts = fa.at(n) or frozenset()
-            if any("everyfields" in t and p == "T" for (p, t) in facts):
+            if any(any(re.search(r"\b%s\b" % re.escape(ef), t) for ef in every_sets) and p == "T" for (p, t) in facts):
                 ctx.ob(nz, discriminated(n), "continue   [a clause is skipped because its field is in everyfields]",
                        detail="valid for Or, wrong for And: not conditioned on the operator", loc=ctx.nodeloc(nz, a))
     # dropping NullQuery clauses
     for st in ast.walk(nz.node):
         if isinstance(st, ast.Assign) and isinstance(st.value, ast.ListComp) and "NullQuery" in norm.canon(st.value):
             node = [n for n in fa.g.nodes if n.ast is st]
-            ctx.ob(nz, bool(node) and discriminated(node[0]), "NullQuery clauses are removed   [%s]" % norm.stmt_text(st)[:60],
+            ctx.ob(nz, bool(node) and discriminated(node[0]), "NullQuery clauses are filtered out of the clause list",
                    detail="valid for Or, wrong for And (And([NullQuery, t]) matches nothing): not conditioned on the operator",
                    loc=ctx.nodeloc(nz, st))
     # merge consults intersect before choosing between bounds
     mg = prog.method("query.ranges.RangeMixin", "merge", inherited=False)
     ctx.saw(mg)
     fm = guards.Facts(mg)
+    ROLE = {"self._comparable_start()": "own start", "other._comparable_start()": "other's start",
+            "self._comparable_end()": "own end", "other._comparable_end()": "other's end"}
+    nchoices = 0
     for n in fm.g.nodes:
         a = n.ast
-        if n.kind == "stmt" and isinstance(a, ast.Assign) and norm.canon(a.targets[0]) in ("start", "end"):
-            v = norm.canon(a.value)
-            if v in ("start1", "start2", "end1", "end2") or v.startswith(("max(", "min(")):
-                facts = fm.at(n) or frozenset()
-                ok = any("intersect" in t for (_, t) in facts)
-                ctx.ob(mg, ok, "%s   [choice between the operands' bounds]" % norm.stmt_text(a),
-                       detail="the containing range is chosen regardless of `intersect`: And of nested ranges widens to the outer one"
-                       if not ok else "", loc=ctx.nodeloc(mg, a))
+        if n.kind == "stmt" and isinstance(a, ast.Assign) and isinstance(a.targets[0], ast.Name):
+            v = norm.deep_canon(a.value, mg.node)
+            what = ROLE.get(v)
+            if what is None and isinstance(a.value, ast.Call) and norm.call_name(a.value) in ("max", "min") and \
+                    all(norm.deep_canon(x, mg.node) in ROLE for x in a.value.args):
+                what = "%s of the two %ss" % (norm.call_name(a.value), "start" if "start" in v else "end")
+            if what is None or isinstance(a.value, ast.Call) and norm.call_name(a.value).startswith("_comparable"):
+                continue
+            nchoices += 1
+            facts = fm.at(n) or frozenset()
+            ok = any("intersect" in t for (_, t) in facts)
+            ctx.ob(mg, ok, "merged bound := %s   [choice between the operands' bounds]" % what,
+                   detail="the containing range is chosen regardless of `intersect`: And of nested ranges widens to the outer one"
+                   if not ok else "", loc=ctx.nodeloc(mg, a))
+    if nchoices < 4:
+        raise AnalysisError("RangeMixin.merge: only %d bound choices recognised" % nchoices)
     # exclusivity is read
     for mname in ("overlaps", "merge"):
         f = prog.method("query.ranges.RangeMixin", mname, inherited=False)
@@ -219,8 +237,8 @@ def c15_r3(ctx):
     for c in cmps:
         sides.add(norm.canon(c.left))
         sides.add(norm.canon(c.comparators[0]))
-    ctx.ob(ov, sides <= {"start1", "start2", "end1", "end2"} and len(cmps) >= 4 and
-           all(norm.deep_canon(ast.Name(id=s, ctx=ast.Load()), ov.node).endswith(("_comparable_start()", "_comparable_end()")) for s in sides),
+    ctx.ob(ov, len(sides) == 4 and len(cmps) >= 4 and
+           all(norm.deep_canon(norm.parse_expr(s_), ov.node).endswith(("_comparable_start()", "_comparable_end()")) for s_ in sides),
            "overlaps() compares the (bound, exclusivity) pairs, not bare bound values", detail=str(sorted(sides)))
 
 
